@@ -510,11 +510,31 @@ func init() {
 		}})
 	defOp(&OpDef{Name: "gov_deposit",
 		Gen: func(w *e.World, r *e.RNG) e.Step {
-			return e.Step{K: "tx", Op: "gov_deposit", A: r.Intn(nAcc(w)), N: []int64{int64(pickProposal(w, r))}, S: []string{r.Amount(e.BigS(w.Cfg.GovMinDeposit)).String()}}
+			a := r.Intn(nAcc(w))
+			st := e.Step{K: "tx", Op: "gov_deposit", A: a, N: []int64{int64(pickProposal(w, r))}, S: []string{r.Amount(e.BigS(w.Cfg.GovMinDeposit)).String()}}
+			// sometimes a second denomination the depositor happens to hold rides along
+			// (liquid-vesting tokens, extra genesis denoms): gov accepts any coin
+			if r.Chance(0.35) {
+				var other sdk.Coins
+				for _, c := range w.App().BankKeeper.GetAllBalances(w.Ctx(), w.Acct(a).Acc) {
+					if c.Denom != e.Denom && c.Amount.IsPositive() {
+						other = append(other, c)
+					}
+				}
+				if len(other) > 0 {
+					c := other[r.Intn(len(other))]
+					st.S = append(st.S, r.Amount(c.Amount.BigInt()).String(), c.Denom)
+				}
+			}
+			return st
 		},
 		Msgs: func(w *e.World, st *e.Step) (*e.Account, []sdk.Msg, bool) {
 			a := w.Acct(st.A)
-			return a, []sdk.Msg{govv1.NewMsgDeposit(a.Acc, uint64(st.NArg(0)), e.Native(e.BigS(st.SArg(0))))}, true
+			coins := e.Native(e.BigS(st.SArg(0)))
+			if st.SArg(2) != "" && e.BigS(st.SArg(1)).Sign() > 0 && sdk.ValidateDenom(st.SArg(2)) == nil {
+				coins = coins.Add(e.C(st.SArg(2), e.BigS(st.SArg(1))))
+			}
+			return a, []sdk.Msg{govv1.NewMsgDeposit(a.Acc, uint64(st.NArg(0)), coins)}, true
 		}})
 	defOp(&OpDef{Name: "gov_vote",
 		Gen: func(w *e.World, r *e.RNG) e.Step {
@@ -524,6 +544,9 @@ func init() {
 				a = r.Intn(len(w.Vals))
 			}
 			opt := []int64{1, 1, 1, 2, 3, 4}[r.Intn(6)]
+			if w.Cfg.Flags["veto_bias"] == 1 && r.Chance(0.6) {
+				opt = 4
+			}
 			return e.Step{K: "tx", Op: "gov_vote", A: a, N: []int64{int64(pickProposal(w, r)), opt}}
 		},
 		Msgs: func(w *e.World, st *e.Step) (*e.Account, []sdk.Msg, bool) {
